@@ -293,7 +293,7 @@ def install_ot_stub(stub):
     return gd
 
 
-def affinity_candidates(kind, n, A_model):
+def affinity_candidates(kind, n, A_model, extra=0):
     """affinities to replay with: the solver's own, plus generic ones (the solver is free to pick a degenerate
     affinity -- e.g. an all-zero metric -- because transport costs / radicals are abstracted; the claim is for every
     symmetric affinity, so any of them reproducing the failure is a counterexample)."""
@@ -308,6 +308,14 @@ def affinity_candidates(kind, n, A_model):
     if kind == "w":
         np.fill_diagonal(R, 0.0)
         out += [line, R, line ** 2]
+        # `extra` costs that violate the triangle inequality in different ways (the claim is for every symmetric
+        # non-negative zero-diagonal cost; defects that are exact for true metrics only show on these)
+        for t in range(extra):
+            r2 = np.random.default_rng(100 + t)
+            Q = r2.uniform(0.05, 3.0, size=(n, n)) ** (1 + t % 3)
+            Q = (Q + Q.T) / 2
+            np.fill_diagonal(Q, 0.0)
+            out.append(Q)
     else:
         G = rng.normal(size=(n, 3))
         out += [G @ G.T, np.exp(-line), R]
@@ -327,10 +335,10 @@ def candidate_models(model, n, Kc, pc, count=12, seed=11):
         tries += 1
         m = dict(base)
         for i in range(n):
-            w = [rng.uniform(0.05, 1.0) for _ in range(Kc)]
+            w = [rng.uniform(0.05, 1.0) for _ in range(Kc)] if len(out) % 2 else [max(1e-3, rng.expovariate(1.0)) for _ in range(Kc)]
             t = sum(w)
             for k in range(Kc - 1):
-                m[f"p_{i}_{k}"] = str(Fraction(w[k] / t).limit_denominator(1000))
+                m[f"p_{i}_{k}"] = str(Fraction(min(max(w[k] / t, 2e-3), 1 - 2e-3)).limit_denominator(1000))
         ok = harness.pc_holds(pc or [], {k: Fraction(v) for k, v in m.items()})
         if ok is True or (ok is None and not pc):
             out.append(m)
